@@ -388,7 +388,39 @@ def exc_name(e: BaseException) -> str:
     return "EXC:" + type(e).__name__
 
 
+class _Timeout(Exception):
+    pass
+
+
+class Watchdog:
+    """A broken tree may loop forever (e.g. resolve1 on a reference cycle): bound every call."""
+
+    def __init__(self, seconds: float = 10.0):
+        self.seconds = seconds
+
+    def _fire(self, *_a):
+        raise _Timeout()
+
+    def __enter__(self):
+        import signal
+        self.old = signal.signal(signal.SIGALRM, self._fire)
+        signal.setitimer(signal.ITIMER_REAL, self.seconds)
+
+    def __exit__(self, *a):
+        import signal
+        signal.setitimer(signal.ITIMER_REAL, 0)
+        signal.signal(signal.SIGALRM, self.old)
+
+
 def impl_observe(data: bytes, bufsiz: int, caching: bool, queries: List[int], strip_eol: bool = False) -> Dict[str, Any]:
+    try:
+        with Watchdog():
+            return _impl_observe(data, bufsiz, caching, queries, strip_eol)
+    except _Timeout:
+        return {"open": "EXC:Timeout(10s)"}
+
+
+def _impl_observe(data: bytes, bufsiz: int, caching: bool, queries: List[int], strip_eol: bool = False) -> Dict[str, Any]:
     from pdfminer.pdfdocument import PDFDocument
     from pdfminer.pdfparser import PDFParser
     res: Dict[str, Any] = {}
@@ -599,9 +631,17 @@ def shrink_case(case: Dict[str, Any], config: Tuple[int, bool], queries: List[in
     return cur
 
 
+_REPORTED: Dict[str, int] = {}
+
+
 def report_failure(ctx: C.Ctx, case: Dict[str, Any], r, queries: List[int]) -> None:
     what, exp, got, config = r
-    small = shrink_case(case, config, queries, what)
+    # bounded work on a broken tree: shrink the first two failures of each kind, record a few more as found
+    k = _REPORTED.get(what, 0)
+    _REPORTED[what] = k + 1
+    if k >= 8 and not has_bare_ref_member(case):
+        return
+    small = shrink_case(case, config, queries, what) if (k < 2 and ctx.time_left()) else case
     r2 = check_case(None, small, [config], queries)
     if r2 is None or r2[0] != what:
         small, r2 = case, r
@@ -720,6 +760,14 @@ def tie_case(ctx: C.Ctx, case: Dict[str, Any], data: bytes, layout: Dict[str, An
         ctx.disagree("setup", inp, "ok", [o for o in out[:nsetup] if o != "ok"][:3])
         return
     r = dict(zip(qlines, out[nsetup:]))
+    try:
+        with Watchdog(30.0):
+            _tie_compare(ctx, inp, data, layout, queries, exp, bufs, r, qs, bound, tparts, containers)
+    except _Timeout:
+        ctx.disagree("timeout", inp, "EXC:Timeout(30s)", "-")
+
+
+def _tie_compare(ctx, inp, data, layout, queries, exp, bufs, r, qs, bound, tparts, containers) -> None:
     impl0 = impl_observe(data, 4096, False, queries)
     impl1 = impl_observe(data, 4096, True, queries)
 
@@ -736,7 +784,7 @@ def tie_case(ctx: C.Ctx, case: Dict[str, Any], data: bytes, layout: Dict[str, An
             (",".join(to_lean_res(c, containers) for c in impl0["info"]) or "-"), r["q.rootinfo"])
         cmp("q.queries-nocache", [to_lean_res(c, containers) for c in impl0["getobj"]],
             [norm_lean(t) for t in r[f"q.queries 0 {qs}"].split(" ")])
-        cmp("q.queries-cache", [to_lean_res(c, containers) for c in impl1["getobj"]],
+        cmp("q.queries-cache", [to_lean_res(c, containers) for c in impl1.get("getobj", [impl1.get("open")])],
             [norm_lean(t) for t in r[f"q.queries 1 {qs}"].split(" ")])
         try:
             offs = impl_offsets(data)
@@ -847,7 +895,10 @@ def build_damaged(dc: Dict[str, Any]) -> Tuple[bytes, bytes, Dict[int, Any]]:
 def extract_text_impl(data: bytes) -> str:
     from pdfminer.high_level import extract_text
     try:
-        return "T:" + extract_text(io.BytesIO(data))
+        with Watchdog():
+            return "T:" + extract_text(io.BytesIO(data))
+    except _Timeout:
+        return "EXC:Timeout(10s)"
     except Exception as e:  # noqa: BLE001
         return "EXC:" + type(e).__name__
 
@@ -967,6 +1018,12 @@ WHAT.update({
 def report_damaged(ctx: C.Ctx, dc: Dict[str, Any], r, bufsiz: int) -> None:
     what = r[0]
     cur = json.loads(json.dumps(dc))
+    k = _REPORTED.get(what + dc["damage"], 0)
+    _REPORTED[what + dc["damage"]] = k + 1
+    if k >= 3:
+        ctx.fail(C.Failure(WHAT[what], {"kind": "damaged", "case": cur, "bufsiz": bufsiz}, r[1], r[2],
+                           dict({"what": what, "damage": cur["damage"], "eol": cur["eol"]}, **r[3])))
+        return
     # shrink: drop extra objects, texts
     for k in list(cur["extra"]):
         c = json.loads(json.dumps(cur))
@@ -1099,6 +1156,7 @@ def replay(ctx: C.Ctx, doc: Dict[str, Any], from_corpus: bool = False) -> None:
 
 
 def run(ctx: C.Ctx) -> None:
+    _REPORTED.clear()
     run_corpus(ctx)
     run_history_cases(ctx)
     run_damaged_cases(ctx)
